@@ -19,6 +19,7 @@ import Snmp.Model.Trap
 import Snmp.Model.Disco
 import Snmp.Model.Conc
 import Snmp.Model.Ber
+import Snmp.Model.Emit
 open Lean Snmp
 
 namespace Driver
@@ -530,28 +531,32 @@ def berOp (op : String) (j : Json) : Except String Json := do
   | _ => throw s!"bad-op {op}"
 
 /-! ### request datagrams (C05) -/
-def pduClassOfKind : String → Except String String
-  | "get" => pure "GetRequest" | "getnext" => pure "GetNextRequest" | "set" => pure "SetRequest"
-  | "getbulk" => pure "BulkGetRequest" | k => throw s!"bad request kind {k}"
+def reqKindOfStr : String → Except String Ops.ReqKind
+  | "get" => pure .get | "getnext" => pure .getnext | "set" => pure .set
+  | "getbulk" => pure .getbulk | k => throw s!"bad request kind {k}"
 
-def emitV3 (v : Json) (pdu : Bytes) : Except String Json := do
-  let spdu := Ber.encodeScoped (← bytesOfJson (← v.getObjVal? "ctx_engine")) (← bytesOfJson (← v.getObjVal? "ctx_name")) pdu
+def emitV3 (v : Json) (r : Ops.PduReq) : Except String Json := do
+  let p : Emit.V3Params := {
+    msgId := ← getInt v "msg_id", maxSize := ← getInt v "max_size", flags := ← getNat v "flags",
+    engineId := ← bytesOfJson (← v.getObjVal? "engine_id"), boots := ← getInt v "boots", time := ← getInt v "time",
+    user := ← bytesOfJson (← v.getObjVal? "user"), authParams := ← bytesOfJson (← v.getObjVal? "auth"),
+    privParams := ← bytesOfJson (← v.getObjVal? "priv"), ctxEngine := ← bytesOfJson (← v.getObjVal? "ctx_engine"),
+    ctxName := ← bytesOfJson (← v.getObjVal? "ctx_name") }
+  let some spdu := Emit.scopedBytes p r | pure Json.null
   let msgData ← match v.getObjVal? "ciphertext" with
     | .ok c => do pure (Ber.tlv 4 (← bytesOfJson c))
     | .error _ => pure spdu
-  let sp := Ber.encodeUsmParams (← bytesOfJson (← v.getObjVal? "engine_id")) (← getInt v "boots") (← getInt v "time")
-    (← bytesOfJson (← v.getObjVal? "user")) (← bytesOfJson (← v.getObjVal? "auth")) (← bytesOfJson (← v.getObjVal? "priv"))
-  let hdr := Ber.encodeHeader (← getInt v "msg_id") (← getInt v "max_size") (← getNat v "flags") 3
-  pure (Json.mkObj [("datagram", toJson (toHex (Ber.encodeV3Msg hdr sp msgData))), ("scoped", toJson (toHex spdu))])
+  pure (Json.mkObj [("datagram", toJson (toHex (Emit.v3Around p msgData))), ("scoped", toJson (toHex spdu))])
 
 def emitOp (j : Json) : Except String Json := do
-  let cls ← pduClassOfKind (← j.getObjValAs? String "kind")
-  let pduOpt := Ber.encodePdu cls (← getInt j "rid") (← getInt j "a") (← getInt j "b") (← vbsOfJson (← j.getObjVal? "vbs"))
-  let some pdu := pduOpt | pure Json.null
+  let r : Ops.PduReq := ⟨← reqKindOfStr (← j.getObjValAs? String "kind"), ← getInt j "rid", ← getInt j "a", ← getInt j "b",
+    ← vbsOfJson (← j.getObjVal? "vbs")⟩
   match j.getObjVal? "v3" with
   | .error _ =>
-    pure (toJson (toHex (Ber.encodeCommunityMsg (← getInt j "version") (← bytesOfJson (← j.getObjVal? "community")) pdu)))
-  | .ok v => emitV3 v pdu
+    match Emit.community (← getInt j "version") (← bytesOfJson (← j.getObjVal? "community")) r with
+    | some dg => pure (toJson (toHex dg))
+    | none => pure Json.null
+  | .ok v => emitV3 v r
 
 def handle (j : Json) : Except String Json := do
   let op ← j.getObjValAs? String "op"
